@@ -1,7 +1,7 @@
 #!/bin/bash
-# run_all.sh [tier] : every check once, one summary line each
+# run_all.sh [tier] : every check once (or those named in $PROPS, in that order), one summary line each
 tier=${1:-quick}
-for p in C01 C02 C03 C04 C05 C06 C07 C08 C09 C10 C11 C12 C13 C14 C15 C16 C17 C18 C19; do
+for p in ${PROPS:-C01 C02 C03 C04 C05 C06 C07 C08 C09 C10 C11 C12 C13 C14 C15 C16 C17 C18 C19}; do
   s=$(date +%s)
   out=$(python3 "$(dirname "$0")/check" --property $p --tier $tier 2>&1); rc=$?
   e=$(( $(date +%s) - s ))
